@@ -454,9 +454,14 @@ func IsPlainSubj(u Subj) bool { return !u.IsUserset() && !u.IsWild() }
 func C11(run *Run) {
 	ctx := context.Background()
 	if run.Replay != "" {
+		if replayKind(run.Replay) == "itercache" {
+			iterCacheConformance(run)
+			return
+		}
 		replayCore(run)
 		return
 	}
+	iterCacheConformance(run) // the iterator cache and its invalidation markers as a sequential object (IterCache*.tla)
 	r := rand.New(rand.NewSource(run.Seed))
 	tr := &HookTracer{}
 	verifhook.InstallTracer(tr)
